@@ -78,10 +78,35 @@ def main():
             clean.append(dict(check=p, exit=r.returncode, violations=len(re.findall(r"^VIOLATION", r.stdout, flags=re.M)),
                               known_findings=len(re.findall(r"^KNOWN-FINDING", r.stdout, flags=re.M))))
         shutil.rmtree(os.path.join(tempfile.gettempdir(), "nsv-self-clean-evidence"), ignore_errors=True)
-    bad = [r for r in results if r["status"] not in ("detected", "missed-as-recorded")] + [c for c in clean if c["exit"] != 0 or c["violations"]]
+    # negative corpus: behaviour-preserving changes must stay silent (apart from re-keyed known defects listed in expected.json)
+    neg = []
+    if not ids:
+        exp = json.load(open(os.path.join(ROOT, "refactors", "expected.json")))
+        for name, allowed in sorted(exp.items()):
+            w = tempfile.mkdtemp(prefix="nsv-self-neg-", dir=os.environ.get("TMPDIR", "/tmp"))
+            os.rmdir(w)
+            try:
+                sh("git", "-C", "/repo", "worktree", "add", "-f", w, "HEAD")
+                r = sh("git", "-C", w, "apply", os.path.join(ROOT, "refactors", name))
+                if r.returncode:
+                    neg.append(dict(refactor=name, status="patch-does-not-apply"))
+                    continue
+                keys = []
+                for i in range(1, 19):
+                    r = sh(os.path.join(ROOT, "check"), "C%02d" % i, env=dict(os.environ, NSV_REPO=w, NSV_EVIDENCE_DIR=w + ".evidence"))
+                    keys += re.findall(r"^\s*key: (.*)$", r.stdout, flags=re.M)
+                extra = [k for k in keys if k not in allowed]
+                neg.append(dict(refactor=name, status="silent" if not extra else "FALSE-ALARM", reported=keys, unexpected=extra))
+            finally:
+                sh("git", "-C", "/repo", "worktree", "remove", "--force", w)
+                shutil.rmtree(w, ignore_errors=True)
+                shutil.rmtree(w + ".evidence", ignore_errors=True)
+        for n_ in neg:
+            print("refactor %-28s %s %s" % (n_["refactor"], n_["status"], n_.get("unexpected") or ""))
+    bad = [r for r in results if r["status"] not in ("detected", "missed-as-recorded")] + [c for c in clean if c["exit"] != 0 or c["violations"]] + [n_ for n_ in neg if n_["status"] != "silent"]
     out = dict(repo_head=sh("git", "-C", "/repo", "rev-parse", "HEAD").stdout.strip(), seeds=len(results),
                detected=sum(r["status"] == "detected" for r in results), wall_s=round(time.time() - t0, 1),
-               results=results, unchanged_tree=clean, ok=not bad)
+               results=results, unchanged_tree=clean, refactors=neg, ok=not bad)
     os.makedirs(os.path.join(ROOT, "selftest"), exist_ok=True)
     with open(os.path.join(ROOT, "selftest", "RESULT.json"), "w") as fh:
         json.dump(out, fh, indent=1)
